@@ -82,6 +82,11 @@ CHECKS = {
             "Per-ring messages are sent for every ring index 0..=255 (rejected iff out of range); SET_VRING_NUM for 0..=300 and boundaries (all of 0..=65535 at thorough) with the queue size read back by a custom listener running inside the worker; SET_VRING_BASE/GET_VRING_BASE and the used index found in guest memory at SET_VRING_ADDR over 0..=260 and boundaries (0..=65535 at thorough); 343 address triples; SET_FEATURES for 7 offered masks x single bits / offered+-one bit / patterns on 1-3 queues (subset check, exact delivery to acked_features, EVENT_IDX to every queue and the backend); the backend-request channel under the 8 subsets of {REPLY_ACK, SHARED_OBJECT, SHMEM}; and every history of length <= 4 (5 thorough) over {memory table A, B, SET_VRING_ADDR, SET_VRING_CALL fd1/fd2/none, add_used+signal}, after which the used element must be in the latest table's file and only the latest call descriptor's counter may have moved.",
             "Trusted: virtio-queue accessors as the view of the ring; eventfd counters from /proc fdinfo. Values between sweep points at quick tier.",
             "DESIGN.md 4/C14"),
+    "C15": ("model_checking", "sched",
+            "exhaustive (layout x log window x write offset/length) lattice and all short SET_LOG_BASE/memory-table histories on a real daemon with the library's BitmapMmapRegion, plus stateless exploration of every interleaving of N concurrent writers' atomic accesses to one log byte",
+            "Inputs: 8 region layouts (1-4 regions sharing log bytes, guest-adjacent regions, a region crossing a log-byte boundary, three unaligned layouts) x log windows at two file offsets between guard pages x log sizes {needed-1, needed, needed+1, 4096} x every (offset, length) pair over the page-boundary lattice written through GuestMemory::write_slice, a write spanning two regions and a used-ring update by the backend: the log window must equal the independently computed page-set bitmap (bit gpa/4096, LSB first), guard bytes must be untouched, and SET_LOG_BASE must be rejected iff a region is unaligned or the log too small. Histories: every sequence of length <= 3 (4 thorough) over {SET_LOG_BASE, table A, table A+B, ADD B, REM B, write A, write B}. Schedules: N = 2,3 (up to 6 thorough) real writer threads mark distinct bits of the same log byte; every atomic access of the bitmap is a scheduling point (verif-hooks AtomicU8), all interleavings are enumerated and the final byte must be the OR of all bits.",
+            "Trusted: sequentially consistent scheduler (a single RMW is insensitive to Relaxed ordering); 16 concurrent writers are outside an exhaustive bound and not claimed. One recorded finding (memory installed after SET_LOG_BASE is not logged).",
+            "DESIGN.md 4/C15"),
     "C16": ("model_checking", "sched",
             "stateless depth-first exploration of the interleavings of the real daemon thread with 1-3 real shutdown callers and a scripted peer under a controlled scheduler, plus sequential fault enumeration of peer-close offsets",
             "For 0..=3 concurrent ShutdownHandle::shutdown() callers and 11 peer behaviours (idle, header only, full request, 2-3 fragments, close at several byte offsets, invalid header) all schedules of the daemon thread (points: each recvmsg, sendmsg, the final socket shutdown), the callers (a point before the call and at the socket shutdown, i.e. between storing the flag and shutting the socket down) and the peer script with at most 2 (3 at thorough) preemptions are enumerated. At quiescence the explorer decides: the daemon thread has exited (or wait() would never return), wait() = Ok after a shutdown request and Err for a disconnect seen while reading without one, the peer reads end-of-stream, and a second start() on the same listener serves a request. Sequentially, the peer closes at every byte offset 0..=20 of a request under start+wait and under serve() (result mapping, exit events raised), and the process's thread count returns to its initial value after dropping the daemons.",
